@@ -3,7 +3,7 @@ import Chewing.Proofs.TrieBufHist
 The snapshot-adoption path of a file-backed `TrieBuf` (sequential writer).
 
 `Settled s`: nothing pending and no tombstone — every entry lives in the adopted snapshot.  (Until fix
-097161a, F36, such a state was the only one in which a prefix lookup was guaranteed to be the map's; now
+c3d9fb2, F36, such a state was the only one in which a prefix lookup was guaranteed to be the map's; now
 every state is, and `Settled` only serves the durability links of C10 / C08.)
 `Quiet` is the extra invariant that makes adoption predictable: a dictionary that is not dirty and has
 no writer in flight has nothing pending (its content is the file's).  With it,
